@@ -19,6 +19,8 @@ def build(profile="dev", quiet=True):
     env["CARGO_NET_OFFLINE"] = "true"
     env["RUSTUP_TOOLCHAIN"] = TOOLCHAIN
     env["CARGO_TARGET_DIR"] = BUILD_DIR
+    # enables the cfg-guarded verification hooks of /repo (MANIFEST.hooks)
+    env["RUSTFLAGS"] = "--cfg quiver_verif"
     # keep the lock file in step with the repository's
     lock_src = os.path.join(REPO, "Cargo.lock")
     cmd = ["cargo", "build", "--offline"]
